@@ -6,33 +6,22 @@ step, `db.setSeq(tr.seq)`, is `inv_done_tr`).
 -/
 namespace GoLevel.Dur
 
-theorem JournalHolds.of_nil {s : St} {jf : LogFile Grp} (b : Nat) (h : jf.all = []) : JournalHolds s jf [] b := by
-  refine ⟨fun x hx => (by cases hx), fun x hx _ => ?_, fun x hx => ?_, fun _ => h, fun _ x hx => ?_⟩
-  · rw [h] at hx; cases hx
-  · rw [h] at hx; cases hx
-  · rw [h] at hx; cases hx
-
-theorem Stale.of_nil {s : St} {jf : LogFile Grp} (h : jf.all = []) : Stale s jf := by
-  refine ⟨fun x hx => ?_, fun _ => h, fun _ => h⟩
-  rw [h] at hx; cases hx
-
-/-- a change of the state that leaves the writer idle with an empty buffer, nothing frozen and no job, while
-    every journal the next `Open` would replay is empty -/
+/-- a change of the state that leaves the writer idle with an empty buffer, nothing frozen and no job; the
+    sequence number may grow (`Discard`) -/
 theorem Inv.tr_frame {cfg : Cfg} {s s' : St} {d : Disk} (h : Inv cfg s d) (hph : s.phase = .running)
     (hjob : s.job = none) (hw : s.w = .idle) (hmem : s.mem = []) (hfz : s.frozen = none)
-    (hjc : ∀ jf, lookup d.journals s.jcur = some jf → jf.all = [])
-    (hst : ∀ mf v0, curManifest d = some mf → viewAt cfg mf 0 = some v0 → ∀ p ∈ d.journals, v0.jn ≤ p.1 →
-      Stale s p.2 → p.2.all = [])
     (e1 : s'.phase = s.phase) (e2 : s'.job = s.job) (e3 : s'.w = s.w) (e4 : s'.mem = s.mem) (e5 : s'.frozen = s.frozen)
     (e6 : s'.jfrozen = s.jfrozen) (e7 : s'.jcur = s.jcur) (e8 : s'.nextFile = s.nextFile) (e9 : s'.live = s.live)
     (e10 : s'.stJn = s.stJn) (e11 : s'.stSq = s.stSq) (e12 : s'.manifestFd = s.manifestFd)
     (e13 : s'.manifestOpen = s.manifestOpen) (e14 : s'.recov = s.recov) (e15 : s'.issued = s.issued)
+    (e16 : s'.everFailed = s.everFailed)
     (hq : s.seq ≤ s'.seq) (htr : TrOK s') : Inv cfg s' d := by
   have hrun := h.run hph
   have hb := h.bounds (by rw [hph]; decide)
   have hmust : must s' = must s := by rw [must_eq, must_eq, e15, e3]
   have hiss : issuedGrps s' = issuedGrps s := by unfold issuedGrps; rw [e15]
   have hjob' : s'.job = none := by rw [e2]; exact hjob
+  have hmg : MustGrows s s' := fun g hg => Or.inl (by rw [← hmust]; exact hg)
   constructor
   · rw [hmust, hiss]; exact h.disk
   · exact h.mm
@@ -41,17 +30,20 @@ theorem Inv.tr_frame {cfg : Cfg} {s s' : St} {d : Disk} (h : Inv cfg s d) (hph :
       (by rw [e8]; exact Nat.le_refl _) (fun _ => ⟨hph, by rw [e7]; exact Nat.le_refl _⟩)
   · intro _
     obtain ⟨r1, r2, r3, r4, r5, r6, r7, r8, r9⟩ := hrun
-    refine ⟨⟨by rw [e14]; exact r1.1, htr⟩, ⟨?_, by rw [e13]; exact r2.2⟩, ?_, by rw [e7]; exact r4,
+    refine ⟨⟨by rw [e14]; exact r1.1, htr⟩, ⟨?_, by rw [e13]; exact r2.2⟩, ?_, by rw [e7, e8]; exact r4,
       by rw [e8]; exact r5, ?_, ?_, ?_, fun _ => ?_⟩
     · have := r2.1
       unfold MfdOK at this ⊢
       rw [hjob] at this
       rw [hjob', e12]
       exact this
-    · rw [e7, e4, e3, hmem, hw]
-      rw [holds_iff] at r3 ⊢
-      obtain ⟨jf, hjf, _⟩ := r3
-      exact ⟨jf, hjf, JournalHolds.of_nil _ (hjc jf hjf)⟩
+    · rw [e7, e4, e3]
+      refine r3.imp (fun jf hjf => ?_)
+      obtain ⟨a, b, c, e⟩ := hjf
+      refine ⟨a, fun x hx hxm => b x hx (by rw [← hmust]; exact hxm), fun x hx => ?_, fun hx => e (by rw [← e16]; exact hx)⟩
+      rcases c x hx with h1 | h1
+      · exact Or.inl h1
+      · exact Or.inr (by omega)
     · show WSeqOK _
       simp only [WSeqOK, e3, hw, e4, hmem]
       intro x hx; cases hx
@@ -68,7 +60,7 @@ theorem Inv.tr_frame {cfg : Cfg} {s s' : St} {d : Disk} (h : Inv cfg s d) (hph :
       rcases r8 p hp hge with h1 | h1 | h1
       · exact Or.inl (by rw [e7]; exact h1)
       · exact Or.inr (Or.inl (by rw [e6]; exact h1))
-      · exact Or.inr (Or.inr (Stale.of_nil (hst mf1 v1 hmf1 hv1 p hp hge h1)))
+      · exact Or.inr (Or.inr ⟨h1.1.mono hq hmg, fun hx => h1.2 (by rw [← e16]; exact hx)⟩)
     · have := r9 hjob
       unfold Settled at this ⊢
       refine this.imp (fun mf1 hmf1 => ⟨fun ho => hmf1.1 (by rw [← e13]; exact ho), hmf1.2.imp (fun v hv => ?_)⟩)
@@ -77,19 +69,6 @@ theorem Inv.tr_frame {cfg : Cfg} {s s' : St} {d : Disk} (h : Inv cfg s d) (hph :
   · intro hc; rw [e1, hph] at hc; cases hc
   · show Holds' s'.job _
     rw [hjob']; trivial
-
-/-- with a transaction open every journal the next `Open` would replay is empty -/
-theorem Inv.tr_journals_empty {cfg : Cfg} {s : St} {d : Disk} (h : Inv cfg s d) (hph : s.phase = .running)
-    {g : Grp} (hg : s.tr = some g) :
-    (∀ jf, lookup d.journals s.jcur = some jf → jf.all = []) ∧
-    (∀ mf v0, curManifest d = some mf → viewAt cfg mf 0 = some v0 → ∀ p ∈ d.journals, v0.jn ≤ p.1 →
-      Stale s p.2 → p.2.all = []) := by
-  have hrun := h.run hph
-  have hsome : s.tr.isSome = true := by rw [hg]; rfl
-  refine ⟨fun jf hjf => ?_, fun _ _ _ _ p _ _ hs => hs.2.1 hsome⟩
-  have := hrun.jcur
-  rw [hjf] at this
-  exact this.2.2.2.1 hsome
 
 theorem Inv.tr_running {cfg : Cfg} {s : St} {d : Disk} (h : Inv cfg s d) {g : Grp} (hg : s.tr = some g) :
     s.phase = .running := by
@@ -101,42 +80,7 @@ theorem Inv.tr_running {cfg : Cfg} {s : St} {d : Disk} (h : Inv cfg s d) {g : Gr
     have := hr.idle.2.2; rw [hg] at this; cases this
   · rfl
 
-/-- if no journal operation of the write path has ever failed, an idle DB with an empty buffer has only empty
-    journals left to replay -/
-theorem Inv.clean_of_neverFailed {cfg : Cfg} {s : St} {d : Disk} (h : Inv cfg s d) (hph : s.phase = .running)
-    (hjob : s.job = none) (hw : s.w = .idle) (hmem : s.mem = []) (hfz : s.frozen = none)
-    (hef : s.everFailed = false) : ∀ p ∈ d.journals, s.stJn ≤ p.1 → p.2.all = [] := by
-  intro p hp hge
-  have hrun := h.run hph
-  have hsett := hrun.nojob hjob
-  unfold Settled at hsett
-  rw [holds_iff] at hsett
-  obtain ⟨mf, hcur, hun, hlv⟩ := hsett
-  have hun := hun hrun.mfd.2
-  rw [holds_iff] at hlv
-  obtain ⟨v, hv, hmir⟩ := hlv
-  have hv0 : viewAt cfg mf 0 = some v := by rw [lastView_eq hcur, hun] at hv; exact hv
-  have r1 := holds_some hrun.rel hcur
-  have r2 := holds_some r1 hv0
-  rcases r2 p hp (by rw [hmir.2.1]; exact hge) with h1 | h1 | h1
-  · have hl := hrun.jcur
-    rw [holds_iff] at hl
-    obtain ⟨jf, hjf, hall⟩ := hl
-    have : lookup d.journals p.1 = some p.2 := lookup_of_mem (sorted_nodup h.disk.jsorted) (by cases p; exact hp)
-    rw [h1, hjf] at this
-    cases this
-    apply List.eq_nil_iff_forall_not_mem.2
-    intro x hx
-    have := hall.2.2.2.2 hef x hx
-    rw [hmem, hw] at this
-    cases this
-  · rcases frozenOK_iff.1 hrun.frozen with ⟨_, h4⟩ | ⟨fz, jf, h4, _⟩
-    · rw [h4] at h1; cases h1
-    · rw [hfz] at h4; cases h4
-  · exact h1.2.2 hef
-
 theorem inv_stepTr {cfg : Cfg} {s : St} {d : Disk} (h : Inv cfg s d) {a : Act} {s' : St}
-    (hclean : a = .trBegin → s.everFailed = false ∨ ∀ p ∈ d.journals, s.stJn ≤ p.1 → p.2.all = [])
     (hs : stepTr s a = some s') : Inv cfg s' d := by
   cases a with
   | trBegin =>
@@ -146,30 +90,8 @@ theorem inv_stepTr {cfg : Cfg} {s : St} {d : Disk} (h : Inv cfg s d) {a : Act} {
       obtain ⟨hph, hw, hmem, hfz, hjob, _⟩ := hg
       simp only [Option.some.injEq] at hs
       subst hs
-      have hrun := h.run hph
-      have hb := h.bounds (by rw [hph]; decide)
-      have hcl : ∀ p ∈ d.journals, s.stJn ≤ p.1 → p.2.all = [] := by
-        rcases hclean rfl with h1 | h1
-        · exact h.clean_of_neverFailed hph hjob hw hmem hfz h1
-        · exact h1
-      -- the single view of the manifest is the session's
-      have hsett := hrun.nojob hjob
-      unfold Settled at hsett
-      rw [holds_iff] at hsett
-      obtain ⟨mf, hcur, hun, hlv⟩ := hsett
-      have hun := hun hrun.mfd.2
-      rw [holds_iff] at hlv
-      obtain ⟨v, hv, hmir⟩ := hlv
-      have hv0 : viewAt cfg mf 0 = some v := by rw [lastView_eq hcur, hun] at hv; exact hv
-      have hbv := hb.all mf hcur 0 (Nat.zero_le _) v hv0
-      refine h.tr_frame hph hjob hw hmem hfz ?_ ?_ rfl rfl rfl rfl rfl rfl rfl rfl rfl rfl rfl rfl rfl rfl rfl
+      exact h.tr_frame hph hjob hw hmem hfz rfl rfl rfl rfl rfl rfl rfl rfl rfl rfl rfl rfl rfl rfl rfl rfl
         (Nat.le_refl _) ⟨hw, hmem, hfz, rfl, rfl⟩
-      · intro jf hjf
-        exact hcl (s.jcur, jf) (lookup_some_mem hjf) (by rw [← hmir.2.1]; exact hbv.2.2 hph)
-      · intro mf1 v1 hc1 hv1 p hp hge _
-        rw [hcur] at hc1; cases hc1
-        rw [hv0] at hv1; cases hv1
-        exact hcl p hp (by rw [← hmir.2.1]; exact hge)
     · cases hs
   | trPut recs =>
     simp only [stepTr] at hs
@@ -183,9 +105,8 @@ theorem inv_stepTr {cfg : Cfg} {s : St} {d : Disk} (h : Inv cfg s d) {a : Act} {
         have htr := (h.run hph).norecov.2
         unfold TrOK at htr
         rw [hg] at htr
-        obtain ⟨hjc, hst⟩ := h.tr_journals_empty hph hg
-        exact h.tr_frame hph hjob htr.1 htr.2.1 htr.2.2.1 hjc hst rfl rfl rfl rfl rfl rfl rfl rfl rfl rfl rfl rfl rfl
-          rfl rfl (Nat.le_refl _) htr
+        exact h.tr_frame hph hjob htr.1 htr.2.1 htr.2.2.1 rfl rfl rfl rfl rfl rfl rfl rfl rfl rfl rfl rfl rfl
+          rfl rfl rfl (Nat.le_refl _) htr
       · cases hs
     · cases hs
   | trDiscard =>
@@ -200,9 +121,8 @@ theorem inv_stepTr {cfg : Cfg} {s : St} {d : Disk} (h : Inv cfg s d) {a : Act} {
         have htr := (h.run hph).norecov.2
         unfold TrOK at htr
         rw [hg] at htr
-        obtain ⟨hjc, hst⟩ := h.tr_journals_empty hph hg
-        exact h.tr_frame hph hjob htr.1 htr.2.1 htr.2.2.1 hjc hst rfl rfl rfl rfl rfl rfl rfl rfl rfl rfl rfl rfl rfl
-          rfl rfl (Nat.le_max_left _ _) trivial
+        exact h.tr_frame hph hjob htr.1 htr.2.1 htr.2.2.1 rfl rfl rfl rfl rfl rfl rfl rfl rfl rfl rfl rfl rfl
+          rfl rfl rfl (Nat.le_max_left _ _) trivial
       · cases hs
     · cases hs
   | trCommit =>
@@ -213,7 +133,6 @@ theorem inv_stepTr {cfg : Cfg} {s : St} {d : Disk} (h : Inv cfg s d) {a : Act} {
       · rename_i hjob
         have hph : s.phase = .running := by
           exact h.tr_running hg
-        obtain ⟨hjc, hst⟩ := h.tr_journals_empty hph hg
         split at hs
         · -- nothing to commit
           simp only [Option.some.injEq] at hs
@@ -221,8 +140,8 @@ theorem inv_stepTr {cfg : Cfg} {s : St} {d : Disk} (h : Inv cfg s d) {a : Act} {
           have htr0 := (h.run hph).norecov.2
           unfold TrOK at htr0
           rw [hg] at htr0
-          exact h.tr_frame hph hjob htr0.1 htr0.2.1 htr0.2.2.1 hjc hst rfl rfl rfl rfl rfl rfl rfl rfl rfl rfl rfl rfl
-            rfl rfl rfl (Nat.le_refl _) trivial
+          exact h.tr_frame hph hjob htr0.1 htr0.2.1 htr0.2.2.1 rfl rfl rfl rfl rfl rfl rfl rfl rfl rfl rfl rfl
+            rfl rfl rfl rfl (Nat.le_refl _) trivial
         · rename_i hne
           have hgne : g.recs ≠ [] := by simpa using hne
           simp only [Option.some.injEq] at hs
@@ -256,16 +175,19 @@ theorem inv_stepTr {cfg : Cfg} {s : St} {d : Disk} (h : Inv cfg s d) {a : Act} {
               (not_trWindow_of_bc rfl rfl) (Nat.le_refl _)) (Nat.le_succ _) (fun _ => ⟨hph, Nat.le_refl _⟩)
           · intro _
             obtain ⟨r1, r2, r3, r4, r5, r6, r7, r8, r9⟩ := hrun
-            refine ⟨r1, ⟨?_, r2.2⟩, ?_, r4, ⟨fun p hp => Nat.lt_succ_of_lt (r5.1 p hp),
+            have hmust' : ∀ (s' : St) (x : Grp), x ∈ must s' → s'.w = s.w → s'.issued = s.issued ++ [⟨g, .pending⟩] → x ∈ must s := by
+              intro s' x hx e1 e2
+              rw [must_eq] at hx ⊢
+              rw [e1, e2] at hx
+              simp only [ackedSync_append_pending] at hx
+              exact hx
+            refine ⟨r1, ⟨?_, r2.2⟩, ?_, ⟨Nat.lt_succ_of_lt r4.1, r4.2⟩, ⟨nums_bump r5.1 (Nat.lt_succ_self _),
               r5.2.imp (fun m hm => Nat.lt_succ_of_lt hm)⟩, ?_, ?_, ?_, fun hc => by cases hc⟩
             · show MfdOK _ d; unfold MfdOK; exact hmfd
             · show Holds (lookup d.journals s.jcur) _
-              rw [holds_iff] at r3 ⊢
-              obtain ⟨jf, hjf, _⟩ := r3
-              refine ⟨jf, hjf, ?_⟩
-              show JournalHolds _ jf (s.mem ++ inflight s.w) s.seq
-              rw [hmem, hw]
-              exact JournalHolds.of_nil _ (hjc jf hjf)
+              refine r3.imp (fun jf hjf => ?_)
+              obtain ⟨a, b, c, e⟩ := hjf
+              exact ⟨a, fun x hx hxm => b x hx (hmust' _ x hxm rfl rfl), c, e⟩
             rotate_left 2
             · rw [holds_iff] at r8 ⊢
               obtain ⟨mf1, hmf1, r8⟩ := r8
@@ -276,7 +198,7 @@ theorem inv_stepTr {cfg : Cfg} {s : St} {d : Disk} (h : Inv cfg s d) {a : Act} {
               rcases r8 p hp hge with h1 | h1 | h1
               · exact Or.inl h1
               · exact Or.inr (Or.inl h1)
-              · exact Or.inr (Or.inr (Stale.of_nil (hst mf1 v1 hmf1 hv1 p hp hge h1)))
+              · exact Or.inr (Or.inr ⟨fun x hx => ⟨fun hxm => (h1.1 x hx).1 (hmust' _ x hxm rfl rfl), (h1.1 x hx).2⟩, h1.2⟩)
             · have h6 := r6
               simp only [WSeqOK, hw] at h6 ⊢
               exact h6
